@@ -13,7 +13,8 @@ use std::io::{BufRead, Write};
 use std::path::PathBuf;
 use std::rc::Rc;
 use std::sync::atomic::{AtomicBool, Ordering};
-use std::sync::{Arc, Mutex};
+use std::sync::Arc;
+use verif_rt::sched::sync::Mutex;
 use std::time::Instant;
 
 use serde_json::{json, Value as J};
@@ -937,6 +938,38 @@ fn nrepl_serve() {
     }
 }
 
+/// Like `nrepl_serve`, but every job runs in this process: at the end
+/// of a controlled run all its threads unwind and exit, and the next
+/// run reuses the memory (a forked child has to fault all of it in
+/// again). The process exits, to be restarted by its driver, after a
+/// run that left a thread behind or in which a thread panicked, and
+/// after every 250th run.
+fn nrepl_serve_inproc() {
+    drop(Env::new(IdGenerator::default(), Vfs::default()));
+    verif_rt::sched::set_reuse(true);
+
+    let stdin = std::io::stdin();
+    let mut n = 0;
+    for line in stdin.lock().lines() {
+        let Ok(line) = line else { break };
+        if line.trim().is_empty() {
+            continue;
+        }
+        let job: J = serde_json::from_str(&line).unwrap_or(J::Null);
+        let out = crate::nrepl::verif_access::controlled_run(&job);
+        println!("{out}");
+        let _ = std::io::stdout().flush();
+        n += 1;
+        let panicked = out["notes"]
+            .as_array()
+            .map(|a| a.iter().any(|x| x[2].as_str().unwrap_or("").starts_with("PANIC")))
+            .unwrap_or(false);
+        if n >= 250 || panicked || out["leaked"].as_bool().unwrap_or(false) {
+            unsafe { _exit(0) };
+        }
+    }
+}
+
 /// Entry point: returns true when the process was invoked as
 /// `garden verif <mode>` and the mode has run.
 pub(crate) fn maybe_run() -> bool {
@@ -947,6 +980,7 @@ pub(crate) fn maybe_run() -> bool {
     match args.get(2).map(|s| s.as_str()) {
         Some("serve") => serve(),
         Some("nrepl-serve") => nrepl_serve(),
+        Some("nrepl-serve-inproc") => nrepl_serve_inproc(),
         Some("nrepl-run") => {
             let mut input = String::new();
             let _ = std::io::Read::read_to_string(&mut std::io::stdin(), &mut input);
